@@ -404,6 +404,10 @@ package transport
 // multipart reader captures r.Body); every temporary file that was created has a deferred removal registered
 // before anything else can fail (ghost counters created/scheduled); gate as for the other transports.
 //@ func (MultipartForm).Do [C10,C03,C09,C05]
+// C10 "a well-formed upload delivers each file's exact bytes ... to every variable path mapped to it": the in-memory
+// reader holds the ADDRESS of the byte-slice variable, so that variable has to be one per file part (declared inside
+// the loop over the parts) - a variable shared by the iterations would make every earlier upload read the last file
+//@   at `params.AddUpload(upload, key, path)`#1 requires declaredInEnclosingLoop(fileBytes)
 // C09 "answered with the client-error status defined for the negotiated media type": the status of an operation that
 // could not be created is computed from the executor's own error list - not from what presenters or response
 // interceptors made of it (their errors need not carry the error code)
@@ -618,6 +622,12 @@ package transport
 //@   stable wsConnection.exec wsConnection.active wsConnection.conn
 //@   ghost inited = false
 //@   at `conn.init()` ghost inited = callres0
+// C11 "closing the connection - by either side or by context cancellation - cancels the context of every affected
+// operation": the connection lives under the upgrade request's own context (a cancellation of the request reaches
+// run(), closeOnCancel and every operation), not under a detached copy of it
+//@   ghost reqctx = nil
+//@   at! `r.Context()` ghost reqctx = callres0
+//@   at `conn.init()` requires conn.ctx == reqctx
 //@   at! `conn.run()` requires inited
 //@   ensures calls(run) <= 1
 //@   ensures calls(run) == 1 ==> inited
